@@ -46,7 +46,7 @@ def roundtrip_cases(tier, seed, res):
     for n in summary["ellipsoids_in_code_not_enumerated"]:
         res.uncovered.append("ellipsoid in the code's table not enumerated by spec/RoundTrip.tla: " + n)
     res.assumptions.append("round trips: thresholds are those of the C01 statement (exact 0; rigorous 10 um; btmerc/butm/omerc/cart above 100 km "
-                           "1 mm; molodensky 20 mm for |lat| <= 80) on the ground: angular residuals x semimajor axis, projected residuals divided by the local "
+                           "1 mm; molodensky 20 mm for |lat| <= 70) on the ground: angular residuals x semimajor axis, projected residuals divided by the local "
                            "linear scale (finite differences); longitudes compared modulo 360 degrees")
     res.assumptions.append("round trips: somerc and omerc have no documented domain: +-3 degrees (somerc) / +-6 x +-3 degrees (omerc) around the centre; "
                            "geodesic reversible up to 10 000 km; cart and geodesic are not evaluated on `unitsphere` (metre lattices of heights "
